@@ -21,6 +21,11 @@ pub fn gen06(tier: &str, rng: &mut Rng) -> Vec<Spec> {
             v.push(mk(r, q, a, b, c, false, &zs, &us));
             v.push(mk(r, q, a, b, c, true, &zs, &[h(0, 1); 3]));
         } } } } }
+    // f64, convex configuration, constant measurements with non-dyadic r, q and values: reproduced bit-exactly
+    for (k, c0) in [0.3f64, 13.7, -0.1].iter().enumerate() { for (rr, qq) in [(0.1f64, 0.7f64), (1.0 / 3.0, 0.9), (0.0, 0.3)] {
+        let ex = |x: f64| crate::util::f64_exact(x).unwrap();
+        let zs = vec![ex(*c0); 5 + k]; let us = vec![Rat::int(0); zs.len()];
+        let mut sp = mk(ex(rr), ex(qq), h(1, 1), h(0, 1), h(1, 1), true, &zs, &us); sp = sp.with("ty", "f64const"); v.push(sp); } }
     // states built through FromGuts with no value yet but a stale covariance: the first sample must overwrite it
     for cov0 in [h(1000, 1), h(-3, 2), h(1, 7)] { for (r, q, a, b, c) in [(h(1, 1), h(1, 1), h(1, 1), h(0, 1), h(1, 1)), (h(1, 2), h(2, 1), h(1, 2), h(1, 1), h(2, 1))] {
         for zs in small_hists(3) { let us = vec![Rat::int(1); 3];
@@ -42,6 +47,20 @@ pub fn exec06(s: &Spec, stats: &mut Stats) -> Outcome {
     let plain = s.usize("plain") == 1; let (zs, us) = (s.rats("zs"), s.rats("us"));
     stats.bump(format!("len:{}", zs.len())); stats.bump(if plain { "plain-form" } else { "control-form" });
     if cfg.a == Rat::int(1) && cfg.b == Rat::int(0) && cfg.c == Rat::int(1) { stats.bump("convex-config"); }
+    if s.has("ty") && s.get("ty") == "f64const" {
+        // only the estimates are compared (they must equal the constant exactly); the float covariance is not exact
+        stats.bump("ty:f64-constant");
+        let mut f = kal::Kalman::with_config(kal::Config { r: cfg.r.to_f64(), q: cfg.q.to_f64(), a: 1.0, b: 0.0, c: 1.0 });
+        let mut ys = vec![]; let mut bad = false;
+        for z in &zs { match catch(|| f.filter(z.to_f64())) { Ok(y) => ys.push(crate::util::f64_exact(y).unwrap_or(Rat::int(i64::MAX / 16))), Err(_) => { bad = true; break } } }
+        // estimates: the f64 filter's (a constant run is reproduced exactly for ANY r, q); covariances: the exact-rational filter's
+        let mut g = kal::Kalman::with_config(cfg.clone()); let mut covs = vec![];
+        for z in &zs { let _ = catch(|| g.filter(*z)); covs.push(g.clone().into_guts().1.cov); }
+        let zus: Vec<(Rat, Rat)> = zs.iter().cloned().zip(us.iter().cloned()).collect();
+        let shown: Vec<Rat> = ys.clone();
+        return Outcome::Case(format!("mk {{| kr := {}; kq := {}; ka := {}; kb := {}; kc := {} |}} {} {} {} {} {} {}", cq(&cfg.r), cq(&cfg.q), cq(&cfg.a), cq(&cfg.b), cq(&cfg.c),
+            cbool(plain), cq(&Rat::int(0)), clist(&zus, |(z, u)| format!("({}, {})", cq(z), cq(u))), cqlist(&shown), cqlist(&covs), cbool(bad)));
+    }
     let cov0 = if s.has("cov0") { s.rat("cov0") } else { Rat::int(0) };
     if cov0 != Rat::int(0) { stats.bump("injected-stale-covariance"); }
     let mut f = if cov0 == Rat::int(0) { kal::Kalman::with_config(cfg.clone()) } else { <kal::Kalman<Rat> as signalo_traits::FromGuts>::from_guts((cfg.clone(), kal::State { cov: cov0, value: None })) };
